@@ -343,12 +343,14 @@ def plan_C18(tier, seed, q):
     if not q:
         jobs += policy_jobs("C18", tier, seed + 1, "failover", 3000, shards=8, kind="vt-race", timeout=3000)
     return {"level": "fault_enumeration",
-            "rule": "history = variant in {waiters, close, fallback, failover} x 2-4 targets x DialTimeout in {50ms,300ms,5s} x ping latency 0-3 ms x optional hook-H1 "
+            "rule": "history = variant in {waiters, close, fallback, failover, update} x 2-4 targets x DialTimeout in {50ms,300ms,5s} x ping latency 0-3 ms x optional hook-H1 "
                     "delay (0-250 ms) inside the lost-wake-up window x 1-64 concurrent waiting callers of all six call forms; up/down script per target; "
                     "oracles in exact virtual time: a routed waiter was released within one detector tick + ping latency of a target coming up; a waiter "
                     "released by Close returns ErrShutdown at that instant; otherwise it returns ErrTimeout exactly at start+DialTimeout (Call/"
                     "CallWithContext; the other forms a non-nil error); nobody waits longer; calls after Close fail in zero time; a refusing target stops "
-                    "receiving user calls within 2 ticks + ping latency of the first failure and is used again within 1.5 s of recovering",
+                    "receiving user calls within 2 ticks + ping latency of the first failure and is used again within 1.5 s of recovering; variant update: all targets healthy, "
+                    "2-7 Updates (same/sub/superset) >= 250 ms apart with calls in flight on every target: a parked caller is routed within 2 ticks + ping latency, nobody times out "
+                    "when DialTimeout exceeds that, calls started a round after the last Update are routed",
             "jobs": jobs, "min_evaluations": 200, "min_distinct": 100, "assumptions": POLICY_ASSUME + [
                 "'no target is live' means the client's live set is empty (never up, or seen refusing by the client); the single-believed-live-target fast path is not judged"]}
 
